@@ -2,7 +2,7 @@
 (* Two bounded universes for Endpoint.tla: "request" (parameters x body x security x argument presence) and "response"     *)
 (* (documented response sets x served status x raise flag x call variant); each terminal state is emitted as JSON.          *)
 EXTENDS Endpoint, Json
-CONSTANTS Universe, MaxParams, EmitJson, Part, Parts
+CONSTANTS Universe, MaxParams, EmitJson, Part, Parts, MaxResp
 PMenu == << [n |-> "id", loc |-> "path", kind |-> "str", req |-> TRUE], [n |-> "item-id", loc |-> "path", kind |-> "int", req |-> TRUE],
             [n |-> "q", loc |-> "query", kind |-> "str", req |-> FALSE], [n |-> "limit", loc |-> "query", kind |-> "int", req |-> TRUE],
             [n |-> "flag", loc |-> "query", kind |-> "bool", req |-> FALSE], [n |-> "sort-by", loc |-> "query", kind |-> "enum", req |-> FALSE],
@@ -18,7 +18,7 @@ BodySeq == <<"none", "json", "jsonarr", "form", "multi", "octet", "json|form:jso
 MyBodies == {BodySeq[j] : j \in {k \in 1..Len(BodySeq) : k % Parts = Part}}
 RMenu == << [status |-> 200, how |-> "model"], [status |-> 201, how |-> "text"], [status |-> 204, how |-> "none"], [status |-> 404, how |-> "list"],
             [status |-> 202, how |-> "int"], [status |-> 206, how |-> "file"], [status |-> 205, how |-> "none"] >>
-RespSeqs == {[k \in 1..Len(ix) |-> RMenu[ix[k]]] : ix \in {q \in UNION {[1..k -> 1..Len(RMenu)] : k \in 1..3} : \A a, b \in 1..Len(q) : a < b => q[a] < q[b]}}
+RespSeqs == {[k \in 1..Len(ix) |-> RMenu[ix[k]]] : ix \in {q \in UNION {[1..k -> 1..Len(RMenu)] : k \in 1..MaxResp} : \A a, b \in 1..Len(q) : a < b => q[a] < q[b]}}
 Variants == {"sync_detailed", "sync", "asyncio_detailed", "asyncio"}
 OptIdx(ps) == {i \in 1..Len(ps) : ~ps[i].req}
 ReqInit == \E ps \in ParamSeqs, b \in MyBodies, sec \in BOOLEAN, v \in {"sync_detailed", "asyncio_detailed"} :
